@@ -272,7 +272,10 @@ theorem parity_rejects_witness :
 theorem cholesky_rejects_indefinite_witness :
     LA.cholesky ([1, 2, 2, 1] : List ℚ) = none ∧
     M.cholesky (⟨[1, 2, 2, 1], 2, 2⟩ : Mat ℚ) = none ∧
-    LA.cholesky ([4, 2, 2, 2] : List ℚ) = some [4, 0, 1/2, 7/4] := by
-  refine ⟨by decide +kernel, by decide +kernel, by decide +kernel⟩
+    -- a positive-definite neighbour is accepted, with its true factor `[[2,0],[1,1]]` (`sqrt 4 = 2`, `sqrt 1 = 1`
+    -- under the exact `ratSqrt` of `instTranscRat`), and `L·Lᵀ = [[4,2],[2,2]]`
+    LA.cholesky ([4, 2, 2, 2] : List ℚ) = some [2, 0, 1, 1] ∧
+    ([2 * 2 + 0 * 0, 2 * 1 + 0 * 1, 1 * 2 + 1 * 0, 1 * 1 + 1 * 1] : List ℚ) = [4, 2, 2, 2] := by
+  refine ⟨by decide +kernel, by decide +kernel, by decide +kernel, by decide +kernel⟩
 
 end Cv.C11
